@@ -253,9 +253,27 @@ def normalized_guards(ctx, body, bb):
             c = c[2]
             neg = not neg
         if c[0] == 'bin' and c[1] in CMP_NEG:
-            out.append((('!' if neg else '') + c[1], c[2], c[3], si))
+            facts = [(('!' if neg else '') + c[1], c[2], c[3])]
+            # equivalent spellings of the same fact, so that a rule looking for `x != 0` also finds `!(0 == x)`:
+            # the mirrored comparison (exact for floats too), and for ==/!= the dual under negation (also exact with NaN)
+            if c[1] in ('Eq', 'Ne') and neg:
+                facts.append((CMP_NEG[c[1]], c[2], c[3]))
+            elif c[1] in ('Eq', 'Ne'):
+                facts.append(('!' + CMP_NEG[c[1]], c[2], c[3]))
+            for op, a, b2 in list(facts):
+                base = op.lstrip('!')
+                facts.append((('!' if op.startswith('!') else '') + CMP_SWAP[base], b2, a))
+            seen = set()
+            for op, a, b2 in facts:
+                if (op, a, b2) not in seen:
+                    seen.add((op, a, b2))
+                    out.append((op, a, b2, si))
         else:
             out.append((('!' if neg else '') + 'true', c, None, si))
+            # x.is_none() <=> !x.is_some()
+            if c[0] == 'call' and isinstance(c[1], str) and c[1].split('::')[-1] in ('is_none', 'is_some') and 'Option' in c[1]:
+                other = c[1][:-len('is_none')] + ('is_some' if c[1].endswith('is_none') else 'is_none')
+                out.append((('' if neg else '!') + 'true', ('call', other, c[2], c[3]), None, si))
     return out
 
 
